@@ -454,11 +454,32 @@ def run_daemonized(case: dict[str, Any]) -> dict[str, Any]:
     return {"calls": res["calls"][0], "code": res["codes"][0]}
 
 
+def run_unserialisable(case: dict[str, Any]) -> dict[str, Any]:
+    """An option value that cannot be sent to the other process (a Generator as DE seed): an error is fine, a leftover process is not."""
+    CONFIGS["_unserialisable"] = {"optimizer": {"method": "differential_evolution",
+                                                "options": {"seed": np.random.default_rng(3), "popsize": 2, "maxiter": 1, "tol": 0.0}}}
+    try:
+        inproc = run_config("_unserialisable", False)
+        signal.signal(signal.SIGALRM, _alarm)
+        signal.alarm(60)
+        ext = run_config("_unserialisable", True)
+    finally:
+        signal.alarm(0)
+        CONFIGS.pop("_unserialisable", None)
+    check(inproc["exc"] is None, "harness", f"in-process run with a Generator seed failed: {inproc['exc']!r}", case)
+    check(not ext["hang"], "hang", "the run with an option value that cannot be serialised did not end within 60 s", case)
+    check(ext["exc"] is not None or ext["code"] == inproc["code"], "exit-code-differs", f"in-process {inproc['code']!r}, external {ext['code']!r}", case)
+    check(not ext["leftover"], "child-left-running", f"optimizer process {ext['leftover']} still running after the step ended with {ext['exc']!r}", case)
+    return {"calls": ext["calls"], "code": ext["code"], "exc": type(ext["exc"]).__name__ if ext["exc"] else None}
+
+
 def run_case(case: dict[str, Any]) -> dict[str, Any]:
     name = case["config"]
     kind = case["kind"]
     if kind == "standin":
         return run_standin(case)
+    if kind == "unserialisable":
+        return run_unserialisable(case)
     if kind == "daemon":
         return run_daemonized(case)
     if kind == "child-error":
@@ -526,6 +547,7 @@ def shards(tier: str, seed: int) -> list[dict[str, Any]]:  # noqa: ARG001
         (e, k) for e in ("empty", "assert", "message", "exit3", "finish") for k in (0, 1, 2, 3)]
     items.extend({"kind": "child-error", "config": "failing-backend", "error": e, "after": k} for e, k in errors)
     items.append({"kind": "daemon", "config": "slsqp"})
+    items.append({"kind": "unserialisable", "config": "de-generator-seed"})
     kill_cfgs = ["slsqp"] if tier == "quick" else ["slsqp", "slsqp-constrained-masked", "nelder-mead-budget", "de-vectorized"]
     points = range(3) if tier == "quick" else range(8)
     for name in kill_cfgs:
